@@ -552,13 +552,13 @@ package client
 //@ func (*Channel).updateGeneric
 //@   requires chanOK(c) && ctx != nil && stateWF(next) && mach(c).phase == channel.Acting && mach(c).stagingTX.State == nil && curSigned(c) && prepareMsg != nil
 //@   modifies mach(c).*, mach(c).prevTXs[*]
-//@   ensures err == nil ==> mach(c).currentTX.State == next && curSigned(c) && mach(c).stagingTX.State == nil && (mach(c).phase == channel.Acting || mach(c).phase == channel.Final)
-//@   ensures err == nil ==> old(validSuccSM(c.machine.StateMachine, next, mach(c).idx))
-//@   ensures err != nil ==> curSigned(c) &&
+//@   ensures result == nil ==> mach(c).currentTX.State == next && curSigned(c) && mach(c).stagingTX.State == nil && (mach(c).phase == channel.Acting || mach(c).phase == channel.Final)
+//@   ensures result == nil ==> old(validSuccSM(c.machine.StateMachine, next, mach(c).idx))
+//@   ensures result != nil ==> curSigned(c) &&
 //@           ((sameTX(mach(c).currentTX, old(mach(c).currentTX)) && mach(c).phase == channel.Acting && mach(c).stagingTX.State == nil) ||
 //@            (mach(c).currentTX.State == next && mach(c).stagingTX.State == nil && (mach(c).phase == channel.Acting || mach(c).phase == channel.Final)) ||
 //@            (sameTX(mach(c).currentTX, old(mach(c).currentTX)) && mach(c).phase == channel.Signing && mach(c).stagingTX.State == next))
-//@   ensures !persistMayFail() && err != nil ==> sameTX(mach(c).currentTX, old(mach(c).currentTX)) && mach(c).phase == channel.Acting && mach(c).stagingTX.State == nil
+//@   ensures !persistMayFail() && result != nil ==> sameTX(mach(c).currentTX, old(mach(c).currentTX)) && mach(c).phase == channel.Acting && mach(c).stagingTX.State == nil
 // (second case: the persister failed after the update was enabled; third case: the persister failed while staging - the function
 // returns before its discard handler is installed and leaves the update staged)
 
